@@ -16,7 +16,7 @@ from ..real import evaluate, sympy_backend as B, walk
 
 LEVEL = "proof"
 # every kind of identifier the language has, incl. reserved words in EVERY position of a dotted / port name
-NAMES = ["x", "y", "N", "a.b", "a.b.c", "#p", "a.#q", "lambda", "in", "lambda_x", "in_0", "x_in", "_u", "b.lambda",
+NAMES = ["x", "y", "N", "a.b", "a.b.c", "#p", "a.#q", "lambda", "in", "lambda_x", "in_0", "x_in", "_u", "b.lambda", "inf", "nan", "NaN", "infinity", "a.inf",
          "#in", "#lambda", "a.#in", "a.b.#lambda", "in.#out", "lambda.#out", "top.in.#out", "a.in.b", "in.x", "a.lambda.#p", "#p.lambda"]
 
 
@@ -269,6 +269,25 @@ def generated(ctx):
             ctx.disagreement("Lean parse of the printed text (value)", {"printed": s}, E.to_str_full(mt)[:300], {"impl": str(e2), "at": d})
 
 
+def bare_names(ctx):
+    """an expression that consists of ONE name and nothing else (what an evaluated resource may collapse to) is read back as that name"""
+    import sympy
+
+    for nm in NAMES:
+        ctx.stats["evaluations"] += 1
+        e = sympy.Symbol(nm)
+        try:
+            t = B.serialize(e)
+            back = B.as_expression(t)
+        except Exception as ex:
+            ctx.violation("failing-input", f"the bare name {nm!r} does not survive serialize->parse ({type(ex).__name__})", {"expression": nm}, str(ex)[:200], nm)
+            return
+        if back != e:
+            ctx.violation("failing-input", f"the bare name {nm!r} is read back as something else", {"expression": nm, "printed": t}, repr(back), f"Symbol({nm})")
+            return
+        ctx.stats["bare_names_checked"] += 1
+
+
 def corpus(ctx):
     """F17: nested sums / products over several indices (sympy flattens them into one object with several limits)"""
     for s_ in ("sum_over(sum_over(x*i, i, 1, 3), j, 0, 4)", "sum_over(sum_over(x*i*j, i, 1, N), j, 0, M)", "prod_over(prod_over(x + i, i, 2, 2), i, 0, 4)",
@@ -294,6 +313,7 @@ def run(ctx, widen=False):
                 "Mod/log2/gamma/log/sqrt/exp, uninterpreted calls, Sum/Product; non-trivial = distinct printed text containing a power, a Sum/Product or a reserved / "
                 "port name")
     corpus(ctx)
+    bare_names(ctx)
     literal_precision(ctx)
     generated(ctx)
     if ctx.violations:
